@@ -147,7 +147,46 @@ func Load(dir, mod string, deep bool, patterns ...string) (*Ctx, error) {
 		}
 	}
 	sort.Slice(c.srcFuncs, func(i, j int) bool { return c.srcFuncs[i].Pos() < c.srcFuncs[j].Pos() })
+	// canonical operand order (see canonOperands): done once, before any rule looks
+	for _, f := range c.srcFuncs {
+		canonOperands(f)
+	}
 	return c, nil
+}
+
+// canonOperands rewrites, in place, every binary operation of f that has its
+// constant operand on the left so that it has it on the right: 2+i becomes i+2,
+// 0 > x becomes x < 0, nil == p becomes p == nil. The operations are
+// commutative (or the comparison is mirrored), so the function computes the
+// same; the rules then see one spelling only. (String concatenation is left
+// alone.)
+func canonOperands(f *ssa.Function) {
+	isConst := func(v ssa.Value) bool { _, ok := v.(*ssa.Const); return ok }
+	for _, b := range f.Blocks {
+		for _, ins := range b.Instrs {
+			bo, ok := ins.(*ssa.BinOp)
+			if !ok || !isConst(bo.X) || isConst(bo.Y) {
+				continue
+			}
+			switch bo.Op {
+			case token.ADD:
+				if bt, ok := bo.Type().Underlying().(*types.Basic); ok && bt.Info()&types.IsString != 0 {
+					continue
+				}
+				bo.X, bo.Y = bo.Y, bo.X
+			case token.MUL, token.AND, token.OR, token.XOR, token.EQL, token.NEQ:
+				bo.X, bo.Y = bo.Y, bo.X
+			case token.LSS:
+				bo.X, bo.Y, bo.Op = bo.Y, bo.X, token.GTR
+			case token.GTR:
+				bo.X, bo.Y, bo.Op = bo.Y, bo.X, token.LSS
+			case token.LEQ:
+				bo.X, bo.Y, bo.Op = bo.Y, bo.X, token.GEQ
+			case token.GEQ:
+				bo.X, bo.Y, bo.Op = bo.Y, bo.X, token.LEQ
+			}
+		}
+	}
 }
 
 // SrcFuncs returns every function with a body declared in the module (methods,
